@@ -132,7 +132,7 @@ func (w *World) GenVC(fn *ssa.Function, ct *Contract, opts ...func(*Engine)) (re
 		var allowed []target
 		has := false
 		collect := func(c2 *Contract, fr2 *frame, pkg *types.Package) {
-			if c2 == nil || !c2.HasAssigns {
+			if c2 == nil || !c2.HasAssigns || c2.AssignsAssumed {
 				return
 			}
 			has = true
@@ -321,6 +321,9 @@ func (e *Engine) applyContract(f *frame, st *State, ct *Contract, fn *ssa.Functi
 	}
 	// frame
 	if ct.HasAssigns {
+		if ct.AssignsAssumed {
+			e.note("ASSUMED (not checked against implementations): " + key + " writes only " + assignsText(ct))
+		}
 		for _, a := range ct.Assigns {
 			e.havocTarget(f, st, ctx, a, pos)
 		}
@@ -452,6 +455,13 @@ func (e *Engine) havocTarget(f *frame, st *State, ctx *evalCtx, a *Clause, pos s
 				e.ghostSet(st, gWData, key, newW)
 				e.assume(st, bvle(c, oldCnt, newCnt))
 			} else {
+				// a *bytes.Buffer is read back: what it delivers is what has been written to it (synchronised here, at
+				// the read, and only for statically known buffers - doing it at every write of every io.Writer makes
+				// all stream obligations markedly harder for the solvers)
+				if e.isKnownBuffer(v.V) {
+					e.syncBuffer(st, key, nil)
+					e.note("known *bytes.Buffer read through a contract: its readable bytes are what was written")
+				}
 				e.ghostSet(st, gPos, key, c.Fresh("havoc.pos", smt.BV(64)))
 			}
 			return
@@ -628,4 +638,31 @@ func splitConj(c *smt.Ctx, t *smt.Term) []*smt.Term {
 		}
 	}
 	return []*smt.Term{t}
+}
+
+func assignsText(ct *Contract) string {
+	var parts []string
+	for _, a := range ct.Assigns {
+		parts = append(parts, strings.TrimSpace(a.Text))
+	}
+	if len(parts) == 0 {
+		return "nothing"
+	}
+	return strings.Join(parts, ", ")
+}
+
+// isKnownBuffer: v is statically a *bytes.Buffer (directly, or an interface value made from one).
+func (e *Engine) isKnownBuffer(v Val) bool {
+	if !isInterface(v.Typ) {
+		return typeStr(v.Typ) == "*bytes.Buffer"
+	}
+	if v.Known != nil && typeStr(v.Known.Typ) == "*bytes.Buffer" {
+		return true
+	}
+	if len(v.Terms) > 0 {
+		if v.Terms[0] == e.C.IntLit(int64(e.typeTag(bufferPtrType(e)))) {
+			return true
+		}
+	}
+	return false
 }
